@@ -17,7 +17,12 @@ ASSUMPTIONS = [
     "virtual-clock loop / in-memory transports (vlib/vloop.py)",
 ]
 EPS = 1e-9
-COMMANDS = {"read": ("read", 35100, 3), "write": ("write", 47510, -7), "write_multi": ("write_multi", 47547, bytes(range(12)))}
+COMMANDS = {"read": ("read", 35100, 8), "write": ("write", 47510, -7), "write_multi": ("write_multi", 47547, bytes(range(12)))}
+# what earlier transmissions of the same request may have received before the exception frame answers a retransmission:
+# nothing, garbage, a frame with a bad checksum, or only the first fragment of a read answer - cut so that the number of
+# missing bytes equals the length of an exception frame (7 on RTU, 9 on Modbus/TCP), the worst case for reassembly
+PRE = {"drop": ["drop"], "garbage": ["garbage", 2], "bad": ["bad", 2], "lone-missing-7": ["lone", 16, 2], "lone-missing-9": ["lone", 16, 2],
+       "lone-missing-5": ["lone", 18, 2]}
 VERBATIM = {1: "ILLEGAL FUNCTION", 2: "ILLEGAL DATA ADDRESS", 3: "ILLEGAL DATA VALUE"}
 
 
@@ -35,8 +40,11 @@ def check_case(acc: Acc, case):
     idx, d, code, kind = case["idx"], case["delay"], case["code"], case["kind"]
     corrupt = case.get("corrupt", False)
     if code != 4 or idx > 0 or corrupt:
-        acc.nontrivial(transport, case["keep"], T, R, idx, d, code, kind, corrupt)
-    script = [["drop"]] * idx
+        acc.nontrivial(transport, case["keep"], T, R, idx, d, code, kind, corrupt, case.get("pre", "drop"))
+    pre = case.get("pre", "drop")
+    if pre.startswith("lone") and kind != "read":
+        pre = "drop"
+    script = [list(PRE[pre])] * idx
     if corrupt:
         frame = rw.rtu_exception_response(0xF7, {"read": 3, "write": 6, "write_multi": 16}[kind], code)
         frame = frame[:-1] + bytes((frame[-1] ^ 0x40,))
@@ -50,7 +58,7 @@ def check_case(acc: Acc, case):
     cfg = "%s|%s" % (transport, kind)
     if out.hang is not None:
         return [("C08|%s|hang" % cfg, str(out.hang), case)]
-    t_deliver = idx * T + netcase.secs(d, T)
+    t_deliver = (obs.tx[idx][0] if len(obs.tx) > idx else idx * T) + netcase.secs(d, T)
     if corrupt:
         if out.kind() == "RequestRejectedException":
             fails.append(("C08|%s|bad-crc-exception-rejected" % cfg,
@@ -90,6 +98,13 @@ def enum_job(job):
                 _apply(acc, case)
                 if code == 2 and idx and len(acc.samples) < 1:
                     acc.sample(case)
+    for pre in PRE:   # earlier transmissions received something else than silence
+        if pre == "drop" or (transport == "tcp" and pre in ("garbage", "bad")) or (kind != "read" and pre.startswith("lone")):
+            continue      # fragments exist for read answers only      # (an invalid answer on Modbus/TCP ends the request at once - D9 - so nothing is retransmitted)
+        for code in (1, 2, 3, 6, 11, 200):
+            for idx in (i for i in idxs if i > 0):
+                _apply(acc, {"transport": transport, "keep": keep, "kind": kind, "T": T, "R": R, "idx": idx, "delay": delays[0],
+                             "code": code, "pre": pre})
     if transport == "udp":
         for code in (1, 2, 3, 4, 11, 200):
             for idx in idxs:
@@ -127,7 +142,8 @@ def hyp_job(job):
         return {"transport": draw(st.sampled_from(("udp", "tcp"))), "keep": draw(st.booleans()),
                 "kind": draw(st.sampled_from(("read", "write", "write_multi"))),
                 "T": draw(st.sampled_from((0.5, 1.0, 2.0, 4.0))), "R": R, "idx": draw(st.integers(0, R)),
-                "delay": draw(st.integers(0, 15)), "code": draw(st.integers(0, 255)), "latency": draw(st.integers(0, 3))}
+                "delay": draw(st.integers(0, 15)), "code": draw(st.integers(0, 255)), "latency": draw(st.integers(0, 3)),
+                "pre": draw(st.sampled_from(("drop", "drop", "lone-missing-7", "lone-missing-9", "lone-missing-5")))}
 
     def body(case):
         if len(acc.samples) < 3:
